@@ -8,10 +8,13 @@ import (
 	"io"
 	"log"
 	"net/url"
+	"os"
+	"runtime"
 	"sort"
 	"strconv"
 	"strings"
 	"sync"
+	"sync/atomic"
 	"testing"
 	"testing/synctest"
 
@@ -83,6 +86,8 @@ type vMcu struct {
 	streams map[StreamType]bool
 	calls   []*vMcuCall
 	objs    []*vMcuObj
+	// stress mode: calls are answered after a few scheduler yields with a PRNG outcome
+	auto *vRand
 }
 
 func newVMcu() *vMcu {
@@ -116,10 +121,30 @@ func (m *vMcu) wait(call *vMcuCall, listener McuListener) (*vMcuObj, error) {
 	m.mu.Lock()
 	call.id = len(m.calls) + 1
 	m.calls = append(m.calls, call)
+	auto := m.auto != nil
+	yields, pick := 0, 0
+	if auto {
+		yields, pick = m.auto.intn(6), m.auto.intn(20)
+	}
 	m.mu.Unlock()
 	// The context is deliberately ignored: whether a cancelled / expired
 	// request still succeeds at the media server is decided by the schedule.
-	out := <-call.gate
+	var out vMcuOutcome
+	if auto {
+		for i := 0; i < yields; i++ {
+			runtime.Gosched()
+		}
+		switch {
+		case pick < 14:
+			out = vMcuOk
+		case pick < 17:
+			out = vMcuFail
+		default:
+			out = vMcuTimeout
+		}
+	} else {
+		out = <-call.gate
+	}
 	m.mu.Lock()
 	defer m.mu.Unlock()
 	call.done = true
@@ -236,7 +261,7 @@ type vC09World struct {
 	// label of the request that started a media-server call, by call id, and back
 	labelOf map[int]int
 	callOf  map[int]*vMcuCall
-	msgId   int
+	msgId   atomic.Int64
 }
 
 func vC09Config() *goconf.ConfigFile {
@@ -323,6 +348,11 @@ func (w *vC09World) shutdown() {
 	w.hub.backend.Close()
 	w.events.Close()
 	synctest.Wait()
+	if os.Getenv("VERIF_DEBUG") != "" {
+		buf := make([]byte, 1<<20)
+		n := runtime.Stack(buf, true)
+		os.Stderr.Write(buf[:n])
+	}
 }
 
 func vC09Sdp(m string) string {
@@ -370,11 +400,26 @@ func (w *vC09World) drainAll() {
 	}
 }
 
+func (w *vC09World) mcuMessage(to int, data map[string]interface{}) *ClientMessage {
+	raw, _ := json.Marshal(data)
+	msg := &ClientMessage{
+		Id:   "m" + strconv.FormatInt(w.msgId.Add(1), 10),
+		Type: "message",
+		Message: &MessageClientMessage{
+			Recipient: MessageClientMessageRecipient{Type: RecipientTypeSession, SessionId: w.sessions[to].PublicId()},
+			Data:      raw,
+		},
+	}
+	if err := msg.CheckValid(); err != nil {
+		panic(fmt.Sprintf("verif: invalid message: %v", err))
+	}
+	return msg
+}
+
 func (w *vC09World) sendMcu(from int, to int, data map[string]interface{}) {
 	raw, _ := json.Marshal(data)
-	w.msgId++
 	msg := &ClientMessage{
-		Id:   "m" + strconv.Itoa(w.msgId),
+		Id:   "m" + strconv.FormatInt(w.msgId.Add(1), 10),
 		Type: "message",
 		Message: &MessageClientMessage{
 			Recipient: MessageClientMessageRecipient{Type: RecipientTypeSession, SessionId: w.sessions[to].PublicId()},
@@ -742,13 +787,263 @@ func (w *vC09World) exec(line string) string {
 	case "state":
 		synctest.Wait()
 		return w.state()
+	case "stress":
+		if len(f) != 4 {
+			return "bad-op"
+		}
+		seed, err1 := strconv.ParseUint(f[1], 10, 64)
+		g, err2 := strconv.Atoi(f[2])
+		n, err3 := strconv.Atoi(f[3])
+		if err1 != nil || err2 != nil || err3 != nil || g < 1 || g > 64 || n < 1 || n > 1000 {
+			return "bad-op"
+		}
+		return w.stress(seed, g, n)
 	}
 	return "bad-op"
+}
+
+// ---------- stress: real concurrency, judged by the state at quiescence ----------
+
+func vC09PermsOf(s *ClientSession) string {
+	s.mu.Lock()
+	defer s.mu.Unlock()
+	res := ""
+	for _, p := range []struct {
+		c string
+		p Permission
+	}{{"m", PERMISSION_MAY_PUBLISH_MEDIA}, {"a", PERMISSION_MAY_PUBLISH_AUDIO}, {"v", PERMISSION_MAY_PUBLISH_VIDEO}, {"s", PERMISSION_MAY_PUBLISH_SCREEN}} {
+		if s.hasPermissionLocked(p.p) {
+			res += p.c
+		}
+	}
+	if res == "" {
+		res = "-"
+	}
+	return res
+}
+
+// stress runs one client goroutine per session and G backend goroutines with N
+// PRNG actions each against the hub, truly concurrently, the fake media server
+// answering on its own; then observes.
+//
+//	impl: stress s0=<l|c>:<perms> s1=… s2=… open=<S/p/stream/media/T|U,…|-> final=<open objects after closing every session>
+func (w *vC09World) stress(seed uint64, g, n int) string {
+	w.mcu.mu.Lock()
+	w.mcu.auto = newVRand(seed ^ 0x5bd1e995)
+	w.mcu.mu.Unlock()
+	root := newVRand(seed)
+	var wg sync.WaitGroup
+	var hubLoop sync.Mutex
+	streamOf := func(rr *vRand) string {
+		if rr.chance(1, 2) {
+			return "screen"
+		}
+		return "video"
+	}
+	// One goroutine per session plays its client connection: the messages of one
+	// client are handled one after the other by its read loop ("offer" inline,
+	// "requestoffer" / "sendoffer" in goroutines of the hub).
+	for ci := 0; ci < vC09Sessions; ci++ {
+		rr := root.fork()
+		wg.Add(1)
+		go func(i int) {
+			defer wg.Done()
+			for k := 0; k < n; k++ {
+				j := (i + 1 + rr.intn(vC09Sessions-1)) % vC09Sessions
+				switch c := rr.intn(100); {
+				case c < 40:
+					w.hub.processMessageMsg(w.sessions[i], w.mcuMessage(i, map[string]interface{}{
+						"type": "offer", "sid": "1", "roomType": streamOf(rr),
+						"payload": map[string]interface{}{"type": "offer", "sdp": vC09Sdp(rr.pick(vC09Media))},
+					}))
+				case c < 65:
+					w.hub.processMessageMsg(w.sessions[i], w.mcuMessage(j, map[string]interface{}{"type": "requestoffer", "roomType": streamOf(rr)}))
+				case c < 75:
+					w.hub.processMessageMsg(w.sessions[i], w.mcuMessage(j, map[string]interface{}{"type": "sendoffer", "roomType": streamOf(rr)}))
+				case c < 88:
+					w.hub.processRoom(w.sessions[i], &ClientMessage{Id: "l", Type: "room", Room: &RoomClientMessage{RoomId: ""}})
+				default:
+					// the session that may be closed concurrently never joins again
+					if i != 2 {
+						roomId := "room" + strconv.Itoa(1+rr.intn(2))
+						msg := &ClientMessage{Id: "j", Type: "room", Room: &RoomClientMessage{RoomId: roomId}}
+						resp := &BackendClientResponse{Type: "room", Room: &BackendClientRoomResponse{Version: BackendVersion, RoomId: roomId}}
+						w.hub.processJoinRoom(w.sessions[i], msg, resp)
+					}
+				}
+				if rr.chance(1, 3) {
+					runtime.Gosched()
+				}
+			}
+		}(ci)
+	}
+	// The other goroutines play the backend / the hub's housekeeping: in-call
+	// changes, permission changes, and closing session 2.
+	for gi := 0; gi < g; gi++ {
+		rr := root.fork()
+		wg.Add(1)
+		go func() {
+			defer wg.Done()
+			for k := 0; k < n; k++ {
+				i := rr.intn(vC09Sessions)
+				switch c := rr.intn(100); {
+				case c < 45:
+					if room := w.sessions[i].GetRoom(); room != nil {
+						flags := 0
+						if rr.chance(1, 2) {
+							flags = FlagInCall | FlagWithAudio
+						}
+						entry := map[string]interface{}{"sessionId": w.sessions[i].PublicId(), "inCall": float64(flags)}
+						// backend room requests are handled one at a time by Hub.Run
+						hubLoop.Lock()
+						room.PublishUsersInCallChanged([]map[string]interface{}{entry}, []map[string]interface{}{entry})
+						hubLoop.Unlock()
+					}
+				case c < 92:
+					var perms []Permission
+					for _, ch := range rr.pick(vC09PermSets) {
+						switch ch {
+						case 'm':
+							perms = append(perms, PERMISSION_MAY_PUBLISH_MEDIA)
+						case 'a':
+							perms = append(perms, PERMISSION_MAY_PUBLISH_AUDIO)
+						case 'v':
+							perms = append(perms, PERMISSION_MAY_PUBLISH_VIDEO)
+						case 's':
+							perms = append(perms, PERMISSION_MAY_PUBLISH_SCREEN)
+						}
+					}
+					w.sessions[i].processAsyncMessage(&AsyncMessage{Type: "permissions", Permissions: perms})
+				default:
+					w.sessions[2].Close()
+				}
+				if rr.chance(1, 3) {
+					runtime.Gosched()
+				}
+			}
+		}()
+	}
+	wg.Wait()
+	synctest.Wait()
+
+	var sb strings.Builder
+	sb.WriteString("stress")
+	for i, s := range w.sessions {
+		st := "l"
+		if s.ctx.Err() != nil {
+			st = "c"
+		}
+		fmt.Fprintf(&sb, " s%d=%s:%s", i, st, vC09PermsOf(s))
+	}
+	w.mcu.mu.Lock()
+	objs := append([]*vMcuObj(nil), w.mcu.objs...)
+	w.mcu.mu.Unlock()
+	var toks []string
+	for _, o := range objs {
+		if !o.isOpen() {
+			continue
+		}
+		tr := "U"
+		if w.tracked(o) {
+			tr = "T"
+		}
+		owner := w.byPublic[o.call.owner]
+		if o.call.isPub {
+			o.mu.Lock()
+			media := o.media
+			o.mu.Unlock()
+			toks = append(toks, fmt.Sprintf("%d/p/%s/%s/%s", owner, o.call.stream, vC09MediaToken(media), tr))
+		} else {
+			toks = append(toks, fmt.Sprintf("%d/s/%s/%d/%s", owner, o.call.stream, w.byPublic[o.call.publisher], tr))
+		}
+	}
+	sort.Strings(toks)
+	if len(toks) == 0 {
+		sb.WriteString(" open=-")
+	} else {
+		sb.WriteString(" open=" + strings.Join(toks, ","))
+	}
+	for _, s := range w.sessions {
+		s.Close()
+	}
+	synctest.Wait()
+	final := 0
+	for _, o := range objs {
+		if o.isOpen() {
+			final++
+		}
+	}
+	w.mcu.mu.Lock()
+	// objects created while the sessions were being closed
+	for _, o := range w.mcu.objs {
+		seen := false
+		for _, x := range objs {
+			seen = seen || x == o
+		}
+		if !seen && o.isOpen() {
+			final++
+		}
+	}
+	w.mcu.mu.Unlock()
+	fmt.Fprintf(&sb, " final=%d", final)
+	return sb.String()
+}
+
+// ---------- the assumption "Close() closes" against the repository's Janus test gateway ----------
+
+// vC09Janus creates a publisher and a subscriber through the real mcuJanus
+// (mcu_janus*.go) talking to the repository's TestJanusGateway, closes both and
+// reports what the gateway got and what is left of it (rooms/handles):
+//
+//	created=<rooms>/<handles> left=<rooms>/<handles> publishers=<entries in mcuJanus.publishers>
+func vC09Janus(t *testing.T, stream string) string {
+	mcu, gateway := newMcuJanusForTesting(t)
+	gateway.registerHandlers(map[string]TestJanusHandler{})
+	ctx, cancel := context.WithTimeout(context.Background(), testTimeout)
+	defer cancel()
+	st := StreamType(stream)
+	// the Janus client keeps one handle of its own
+	gateway.mu.Lock()
+	rooms0, handles0 := len(gateway.rooms), len(gateway.handles)
+	gateway.mu.Unlock()
+	pub, err := mcu.NewPublisher(ctx, &TestMcuListener{id: "verif-pub"}, "verif-pub", "sid", st, NewPublisherSettings{}, &TestMcuInitiator{country: "DE"})
+	if err != nil {
+		return "error"
+	}
+	sub, err := mcu.NewSubscriber(ctx, &TestMcuListener{id: "verif-sub"}, "verif-pub", st, &TestMcuInitiator{country: "DE"})
+	if err != nil {
+		pub.Close(context.Background())
+		return "error"
+	}
+	gateway.mu.Lock()
+	before := fmt.Sprintf("%d/%d", len(gateway.rooms)-rooms0, len(gateway.handles)-handles0)
+	gateway.mu.Unlock()
+	sub.Close(context.Background())
+	pub.Close(context.Background())
+	gateway.mu.Lock()
+	rooms, handles := len(gateway.rooms)-rooms0, len(gateway.handles)-handles0
+	gateway.mu.Unlock()
+	mcu.mu.Lock()
+	pubs := len(mcu.publishers)
+	mcu.mu.Unlock()
+	return fmt.Sprintf("created=%s left=%d/%d publishers=%d", before, rooms, handles, pubs)
 }
 
 const vC09Sessions = 3
 
 func vC09Exec(t *testing.T, c *vCase) {
+	if len(c.Ops) > 0 && strings.HasPrefix(c.Ops[0], "janus ") {
+		// not in a bubble: the Janus client uses real timers
+		for _, line := range c.Ops {
+			f := strings.Fields(line)
+			if len(f) == 2 && f[0] == "janus" && (f[1] == "video" || f[1] == "screen") {
+				c.Impl = append(c.Impl, vC09Janus(t, f[1]))
+			} else {
+				c.Impl = append(c.Impl, "bad-op")
+			}
+		}
+		return
+	}
 	synctest.Test(t, func(t *testing.T) {
 		w := vC09NewWorld(t, vC09Sessions)
 		defer w.shutdown()
@@ -979,6 +1274,9 @@ func vC09Gen(e *vEnv, r *vRand) []vCase {
 		}
 	}
 
+	// the assumption about the real Janus client, once per stream type
+	add([]string{"janus video", "janus screen"}, "janus")
+
 	// PRNG histories
 	n := e.scale(250, 4000)
 	maxOps := e.scale(30, 60)
@@ -1003,4 +1301,23 @@ func vC09Gen(e *vEnv, r *vRand) []vCase {
 func TestVerifC09(t *testing.T) {
 	log.SetOutput(io.Discard)
 	vRun(t, vC09Gen, vC09Exec)
+}
+
+// Stress variant (built with the race detector by the check): real goroutines,
+// no gates; each case is one `stress` op after a fixed setup.
+func vC09StressGen(e *vEnv, r *vRand) []vCase {
+	var cases []vCase
+	n := e.scale(40, 400)
+	for i := 0; i < n; i++ {
+		rr := r.fork()
+		ops := append([]string(nil), vC09Setup...)
+		ops = append(ops, "join 2 1", "incall 2 1", fmt.Sprintf("stress %d %d %d", rr.u64()>>1, 2+rr.intn(7), 5+rr.intn(36)))
+		cases = append(cases, vCase{Ops: ops, Tags: []string{"stress"}})
+	}
+	return cases
+}
+
+func TestVerifC09Stress(t *testing.T) {
+	log.SetOutput(io.Discard)
+	vRun(t, vC09StressGen, vC09Exec)
 }
